@@ -412,6 +412,19 @@ def owner_by_position(ranges, file, line):
     return best[2] if best else None
 
 
+_MIR_KIND = {"overflow-add": ("Overflow", "Add"), "overflow-sub": ("Overflow", "Sub"), "overflow-mul": ("Overflow", "Mul"),
+             "overflow-neg": ("OverflowNeg", ""), "overflow-shl": ("Overflow", "Shl"), "overflow-shr": ("Overflow", "Shr"),
+             "bounds": ("BoundsCheck", ""), "div-by-zero": ("DivisionByZero", ""), "rem-by-zero": ("RemainderByZero", "")}
+
+
+def _kind_matches(kind, mir_kind):
+    """does the MIR site description (`assert:<msg>` / `call:<callee>`) fit the residual panic kind"""
+    if kind in _MIR_KIND:
+        a, b = _MIR_KIND[kind]
+        return mir_kind.startswith("assert:") and a in mir_kind and b in mir_kind
+    return mir_kind.startswith("call:")
+
+
 def attributed(f, repo=None):
     """residual sites with owner function(s): list of dict(owner, kind, pos, callee, snippet, via)"""
     uni = universe(f)
@@ -425,9 +438,17 @@ def attributed(f, repo=None):
             l = tuple(l)
             if l in uni:
                 owners = sorted({o for o, _k, _s in uni[l]})
-                snippet = uni[l][0][2]
                 for o in owners:
-                    out.append({"owner": o, "kind": kind, "pos": "%s:%d:%d" % l, "callee": s["callee"], "snippet": snippet, "via": "location", "ir_fn": s["fn"]})
+                    # a panic Location only carries the start line:col; `(a - b) - c` has two subtraction checks that start at
+                    # the same column. Every MIR site of the matching kind at this position is taken to be residual.
+                    cands = []
+                    for o2, k2, sn in uni[l]:
+                        if o2 == o and _kind_matches(kind, k2) and sn not in cands:
+                            cands.append(sn)
+                    if not cands:
+                        cands = [uni[l][0][2]]
+                    for i, sn in enumerate(cands):
+                        out.append({"owner": o, "kind": kind, "pos": ("%s:%d:%d" % l) + ("" if i == 0 else "#%d" % i), "callee": s["callee"], "snippet": sn, "via": "location", "ir_fn": s["fn"]})
                 placed = True
             elif l[0].startswith("src/"):
                 o = owner_by_position(ranges, l[0], l[1])
